@@ -366,7 +366,7 @@ func main() {
 	r := ev.New(prop, tier, "sched")
 	budget := 150 * time.Second
 	if tier == "thorough" {
-		budget = 40 * time.Minute
+		budget = 20 * time.Minute
 	}
 	if s := os.Getenv("VERIF_BUDGET_S"); s != "" {
 		var n int
